@@ -189,6 +189,18 @@ def readers(ctx):
     stream = Stream('s')
     exits = it.run_function(fn, {'s': stream})
     rets = [e for e in exits if e.kind == 'return']
+    # a read may return fewer bytes than requested (the integer lies within the last bytes of the stream): a rewind RELATIVE to the
+    # current position that is computed from the requested count overshoots there; only an absolute seek from a tell() taken before
+    # the read, or a relative one that uses len(<bytes read>), is right at the end of the stream
+    for mq in ('encoding:read_varbyteint', 'encoding:read_varbyteint_return'):
+        mf = repo.func(mq)
+        over = [c for c in ast.walk(mf) if isinstance(c, ast.Call) and isinstance(c.func, ast.Attribute) and c.func.attr == 'read' and c.args and isinstance(c.args[0], ast.Constant) and c.args[0].value > 1]
+        for c in ast.walk(mf):
+            if isinstance(c, ast.Call) and isinstance(c.func, ast.Attribute) and c.func.attr == 'seek' and len(c.args) == 2 and isinstance(c.args[1], ast.Constant) and c.args[1].value == 1:
+                uses_len = any(isinstance(x, ast.Call) and isinstance(x.func, ast.Name) and x.func.id == 'len' for x in ast.walk(c.args[0]))
+                if over and not uses_len:
+                    ctx.violate(mq, 'after reading ahead (`%s`) the stream is rewound relative to the current position by `%s`, which assumes the full count was read' % (norm(over[0]), norm(c.args[0])), c,
+                                'a multi-byte CompactSize within the last 8 bytes of a stream leaves the position wrong: the next read decodes old bytes again')
     if len(rets) != 1:
         ctx.undecided('read_varbyteint has %d return paths' % len(rets))
     e = rets[0]
@@ -206,6 +218,7 @@ def readers(ctx):
     mut.const('scripts', 'data_pack', b'M', b'L', 'data_pack: pushdata2 opcode -> pushdata1'),
     mut.const('scripts', 'Script.parse_bytesio', 'little', 'big', 'script reader: pushdata2 length big-endian', nth=1),
     mut.const('scripts', 'Script.parse_bytesio', 75, 76, 'script reader: direct push range 1..76', nth=0),
+    mut.insert_before('scripts', 'data_pack', 'if len(data) <= 75:', "if not data:\n    return b''", 'empty push dropped'),
 ])
 def pushdata(ctx):
     """data_pack: <=75 direct, 76..255 4c+1 byte, 256..65535 4d+LE2; Script.parse_bytesio reads 1..75 direct,
@@ -223,6 +236,12 @@ def pushdata(ctx):
     for a, b, leaf in intv.partition(tree, ln, 0, 65535):
         ctx.saw('data_pack len [%d, %d] -> %s' % (a, b, show(leaf)))
         parts = flatten_cat(leaf)
+        if isinstance(leaf, bytes):
+            # a constant result: only right for the empty push, which is the single byte 00
+            if not (a == b == 0 and leaf == b'\x00'):
+                ctx.violate(q, 'data of %d..%d bytes is packed as the constant %s: the item is dropped from the script (an empty push is the byte 00)' % (a, b, leaf.hex() or "b''"), fn,
+                            'Script([OP_DUP, b"", OP_EQUAL]).serialize() loses the empty push: another script, another hash, fewer items when parsed back')
+            continue
         if not parts or parts[-1] != data:
             ctx.undecided('data_pack leaf does not end with the data: %s' % show(leaf))
         pw = _leaf_prefix_width(('cat', tuple(parts[:-1])), ln)
